@@ -757,10 +757,12 @@ pub fn fuse_case(t: &mut Tape) -> NetCase {
         if !os.is_empty() {
             opts.push(os.to_string());
         }
-        if t.chance(1, 4) {
+        let tagged = t.chance(1, 4);
+        if tagged {
             opts.push(format!("tag={}", t.choose(TAGS)));
         }
-        if t.chance(1, 10) {
+        // tag + redirect is documented as unsupported: never combined
+        if t.chance(1, 10) && !tagged {
             opts.push(format!("redirect=noop.js"));
         }
         if t.chance(1, 12) {
@@ -1029,4 +1031,41 @@ pub fn scriptlet_resources() -> Vec<adblock::resources::Resource> {
     v.push(mk("tmpl.js2", &["tmpl"], ResourceType::Template, "/*MARK-tmpl {{1}}*/", &[], 0));
     v.push(mk("perm", &[], ResourceType::Mime(MimeType::ApplicationJavascript), "function permlet() { /*MARK-perm*/ }", &[], 2));
     v
+}
+
+/// Like `fuse_case`, but the rules have NO indexable token (1-char words, wildcards, empty
+/// patterns), so they all land in the fallback bucket, where catch-all rules get fused with them.
+pub fn tokenless_case(t: &mut Tape) -> NetCase {
+    let optsets = ["", "font,third-party", "script", "image,script", "websocket", "third-party", "important", "xhr,1p", "~image"];
+    let pats = ["", "*", "/f.", "/a-", "-b_", "/f*x.", "_c/", "/a*.b/", ".j?", "/x/*/y", "=1&", "/*/", "^a^"];
+    let n = 2 + t.pick(10);
+    let mut rules = vec![];
+    for _ in 0..n {
+        let p = t.choose(&pats);
+        let o = t.choose(&optsets);
+        let ex = if t.chance(1, 5) { "@@" } else { "" };
+        let mut opts: Vec<String> = if o.is_empty() { vec![] } else { vec![o.to_string()] };
+        if t.chance(1, 6) {
+            opts.push(format!("tag={}", t.choose(TAGS)));
+        }
+        if p.is_empty() && opts.is_empty() {
+            opts.push("script".into());
+        }
+        rules.push(if opts.is_empty() { format!("{}{}", ex, p) } else { format!("{}{}${}", ex, p, opts.join(",")) });
+    }
+    let mut tags = vec![];
+    for tg in TAGS {
+        if t.chance(1, 2) {
+            tags.push(tg.to_string());
+        }
+    }
+    let mut reqs = vec![];
+    for _ in 0..(2 + t.pick(8)) {
+        let (h, _) = host(t);
+        let path = t.choose(&["/f.woff2", "/a-b_c/", "/x/1/y.js", "/fonts/r.j?v=1&x", "/", "/a/b/c", "/fax.b/", "/q^a"]);
+        let u = format!("{}://{}{}", t.choose(&["https", "http", "wss", "https"]), h, path);
+        let source = source_for(t, &u, &[]);
+        reqs.push(ReqSpec { url: u, source, rtype: t.choose(&["font", "script", "image", "websocket", "xhr", "other", "document"]).to_string() });
+    }
+    NetCase { rules, tags, reqs }
 }
